@@ -129,6 +129,90 @@ Theorem C01_block_parse_total :
 Proof. exact block_parse_total. Qed.
 Print Assumptions C01_block_parse_total.
 
+
+(* ---- the inner scans: no answer depends on a fuel constant ------------------------------------- *)
+From MD Require Import Model.Helpers Lemmas.FuelAdequate.
+(* The inner scans of the block model answer with an ordinary value when their loop-local fuel is
+   used up.  Above a bound computed from the arguments (the distance the scan can still travel)
+   the answer is the same for every fuel; the fuel passed at each call site (S (length src) for a
+   scan over the source with 0 <= pos and maximum <= len src, S (endLine - startLine) for a scan
+   over lines, 8 for the heading level, 12 for the ordered-list digits) lies above it. *)
+Theorem C01_skip_empty_lines_fuel : forall f1 f2 st from, (Z.to_nat (b_lineMax st - from) < f1)%nat -> (Z.to_nat (b_lineMax st - from) < f2)%nat -> skip_empty_lines f1 st from = skip_empty_lines f2 st from.
+Proof. exact skip_empty_lines_fuel. Qed.
+Print Assumptions C01_skip_empty_lines_fuel.
+Theorem C01_skip_while_fuel : forall p, forall f1 f2 src pos, (Z.to_nat (len src - pos) < f1)%nat -> (Z.to_nat (len src - pos) < f2)%nat -> skip_while f1 p src pos = skip_while f2 p src pos.
+Proof. exact skip_while_fuel. Qed.
+Print Assumptions C01_skip_while_fuel.
+Theorem C01_skip_back_fuel : forall p, forall f1 f2 src pos mn, (Z.to_nat (pos - mn) < f1)%nat -> (Z.to_nat (pos - mn) < f2)%nat -> skip_back f1 p src pos mn = skip_back f2 p src pos mn.
+Proof. exact skip_back_fuel. Qed.
+Print Assumptions C01_skip_back_fuel.
+Theorem C01_gl_scan_fuel : forall f1 f2 src first last ls li ind ts bs, (Z.to_nat (last - first) < f1)%nat -> (Z.to_nat (last - first) < f2)%nat -> gl_scan f1 src first last ls li ind ts bs = gl_scan f2 src first last ls li ind ts bs.
+Proof. exact gl_scan_fuel. Qed.
+Print Assumptions C01_gl_scan_fuel.
+Theorem C01_get_lines_loop_fuel : forall f1 f2 st line endl indent keep, (Z.to_nat (endl - line) < f1)%nat -> (Z.to_nat (endl - line) < f2)%nat -> get_lines_loop f1 st line endl indent keep = get_lines_loop f2 st line endl indent keep.
+Proof. exact get_lines_loop_fuel. Qed.
+Print Assumptions C01_get_lines_loop_fuel.
+Theorem C01_code_scan_fuel : forall cfg, forall f1 f2 st nl el last, (Z.to_nat (el - nl) < f1)%nat -> (Z.to_nat (el - nl) < f2)%nat -> code_scan cfg f1 st nl el last = code_scan cfg f2 st nl el last.
+Proof. exact code_scan_fuel. Qed.
+Print Assumptions C01_code_scan_fuel.
+Theorem C01_fence_scan_fuel : forall cfg, forall f1 f2 st nl el mk ln, (Z.to_nat (el - nl) < f1)%nat -> (Z.to_nat (el - nl) < f2)%nat -> fence_scan cfg f1 st nl el mk ln = fence_scan cfg f2 st nl el mk ln.
+Proof. exact fence_scan_fuel. Qed.
+Print Assumptions C01_fence_scan_fuel.
+Theorem C01_hr_scan_fuel : forall f1 f2 src pos mx mk cnt, (Z.to_nat (mx - pos) < f1)%nat -> (Z.to_nat (mx - pos) < f2)%nat -> hr_scan f1 src pos mx mk cnt = hr_scan f2 src pos mx mk cnt.
+Proof. exact hr_scan_fuel. Qed.
+Print Assumptions C01_hr_scan_fuel.
+Theorem C01_heading_level_fuel : forall f1 f2 src pos mx level, (Z.to_nat (7 - level) < f1)%nat -> (Z.to_nat (7 - level) < f2)%nat -> heading_level f1 src pos mx level = heading_level f2 src pos mx level.
+Proof. exact heading_level_fuel. Qed.
+Print Assumptions C01_heading_level_fuel.
+Theorem C01_html_scan_fuel : forall f1 f2 st closer nl el, (Z.to_nat (el - nl) < f1)%nat -> (Z.to_nat (el - nl) < f2)%nat -> html_scan f1 st closer nl el = html_scan f2 st closer nl el.
+Proof. exact html_scan_fuel. Qed.
+Print Assumptions C01_html_scan_fuel.
+Theorem C01_ref_prescan_fuel : forall f1 f2 src pos mx, (Z.to_nat (mx - pos) < f1)%nat -> (Z.to_nat (mx - pos) < f2)%nat -> ref_prescan f1 src pos mx = ref_prescan f2 src pos mx.
+Proof. exact ref_prescan_fuel. Qed.
+Print Assumptions C01_ref_prescan_fuel.
+Theorem C01_ref_label_fuel : forall f1 f2 s pos mx lines, (Z.to_nat (mx - pos) < f1)%nat -> (Z.to_nat (mx - pos) < f2)%nat -> ref_label f1 s pos mx lines = ref_label f2 s pos mx lines.
+Proof. exact ref_label_fuel. Qed.
+Print Assumptions C01_ref_label_fuel.
+Theorem C01_skip_ws_nl_fuel : forall f1 f2 s pos mx lines, (Z.to_nat (mx - pos) < f1)%nat -> (Z.to_nat (mx - pos) < f2)%nat -> skip_ws_nl f1 s pos mx lines = skip_ws_nl f2 s pos mx lines.
+Proof. exact skip_ws_nl_fuel. Qed.
+Print Assumptions C01_skip_ws_nl_fuel.
+Theorem C01_skip_sp_fuel : forall f1 f2 s pos mx, (Z.to_nat (mx - pos) < f1)%nat -> (Z.to_nat (mx - pos) < f2)%nat -> skip_sp f1 s pos mx = skip_sp f2 s pos mx.
+Proof. exact skip_sp_fuel. Qed.
+Print Assumptions C01_skip_sp_fuel.
+Theorem C01_bq_blanks_fuel : forall f1 f2 src pos mx off bs adj, (Z.to_nat (mx - pos) < f1)%nat -> (Z.to_nat (mx - pos) < f2)%nat -> bq_blanks f1 src pos mx off bs adj = bq_blanks f2 src pos mx off bs adj.
+Proof. exact bq_blanks_fuel. Qed.
+Print Assumptions C01_bq_blanks_fuel.
+Theorem C01_ordered_digits_fuel : forall f1 f2 src start pos mx, (Z.to_nat (start + 10 - pos) < f1)%nat -> (Z.to_nat (start + 10 - pos) < f2)%nat -> ordered_digits f1 src start pos mx = ordered_digits f2 src start pos mx.
+Proof. exact ordered_digits_fuel. Qed.
+Print Assumptions C01_ordered_digits_fuel.
+Theorem C01_mark_tight_fuel : forall f1 f2 tokens i length level, (Z.to_nat (length - i) < f1)%nat -> (Z.to_nat (length - i) < f2)%nat -> mark_tight f1 tokens i length level = mark_tight f2 tokens i length level.
+Proof. exact mark_tight_fuel. Qed.
+Print Assumptions C01_mark_tight_fuel.
+Theorem C01_list_blanks_fuel : forall f1 f2 src pos mx off bs, (Z.to_nat (mx - pos) < f1)%nat -> (Z.to_nat (mx - pos) < f2)%nat -> list_blanks f1 src pos mx off bs = list_blanks f2 src pos mx off bs.
+Proof. exact list_blanks_fuel. Qed.
+Print Assumptions C01_list_blanks_fuel.
+Theorem C01_esc_split_fuel : forall f1 f2 s pos mx lastPos esc cur acc, (Z.to_nat (mx - pos) < f1)%nat -> (Z.to_nat (mx - pos) < f2)%nat -> esc_split f1 s pos mx lastPos esc cur acc = esc_split f2 s pos mx lastPos esc cur acc.
+Proof. exact esc_split_fuel. Qed.
+Print Assumptions C01_esc_split_fuel.
+Theorem C01_delim_chars_fuel : forall f1 f2 src pos mx, (Z.to_nat (mx - pos) < f1)%nat -> (Z.to_nat (mx - pos) < f2)%nat -> delim_chars f1 src pos mx = delim_chars f2 src pos mx.
+Proof. exact delim_chars_fuel. Qed.
+Print Assumptions C01_delim_chars_fuel.
+Theorem C01_dest_angle_fuel : forall f1 f2 s start pos mx, (Z.to_nat (mx - pos) < f1)%nat -> (Z.to_nat (mx - pos) < f2)%nat -> dest_angle f1 s start pos mx = dest_angle f2 s start pos mx.
+Proof. exact dest_angle_fuel. Qed.
+Print Assumptions C01_dest_angle_fuel.
+Theorem C01_dest_bare_fuel : forall f1 f2 s pos mx level, (Z.to_nat (mx - pos) < f1)%nat -> (Z.to_nat (mx - pos) < f2)%nat -> dest_bare f1 s pos mx level = dest_bare f2 s pos mx level.
+Proof. exact dest_bare_fuel. Qed.
+Print Assumptions C01_dest_bare_fuel.
+Theorem C01_title_loop_fuel : forall f1 f2 s start pos mx marker lines, (Z.to_nat (mx - pos) < f1)%nat -> (Z.to_nat (mx - pos) < f2)%nat -> title_loop f1 s start pos mx marker lines = title_loop f2 s start pos mx marker lines.
+Proof. exact title_loop_fuel. Qed.
+Print Assumptions C01_title_loop_fuel.
+Theorem C01_src_fuel_above_bound : forall (src : str) pos mx, 0 <= pos -> mx <= len src -> (Z.to_nat (mx - pos) < S (length src))%nat.
+Proof. exact src_fuel_above_bound. Qed.
+Print Assumptions C01_src_fuel_above_bound.
+Theorem C01_line_fuel_above_bound : forall sl el, (Z.to_nat (el - (sl + 1)) < S (Z.to_nat (el - sl)))%nat.
+Proof. exact line_fuel_above_bound. Qed.
+Print Assumptions C01_line_fuel_above_bound.
+
 (* every rule, the nested tokenize at any depth and the rule loop return with the five line tables,
    the source and lineMax exactly as they were *)
 Theorem C01_nested_tokenize_restores_tables :
